@@ -339,6 +339,7 @@ func (e *Exec) resetPath() {
 	e.utf8ok = map[*Term]*Term{}
 	e.atomVCs = nil
 	e.probes = nil
+	e.powMemo = nil
 	e.unitFloats = nil
 	e.vbounds = map[*Term]ival{}
 	e.solver.StartPath(e.shared)
